@@ -238,7 +238,7 @@ def correspond(ctx, binary, cases, what, driver='qconc', monitors=None, fifo=Fal
     impl = vlib.run_impl(binary, texts, ids, timeout=900)
     stats = {'compared': 0, 'disagreements': 0, 'monitor_alarms': 0, 'deadlocks': 0, 'actions': 0, 'distinct': 0}
     distinct = set()
-    reported = 0
+    bad = []                                     # (priority, id, monitor problems): property-level alarms first
     for i in ids:
         stats['compared'] += 1
         a, b = model.get(i, []), impl.get(i, ['<missing>'])
@@ -254,12 +254,17 @@ def correspond(ctx, binary, cases, what, driver='qconc', monitors=None, fifo=Fal
             continue
         if a != b:
             stats['disagreements'] += 1
+        bad.append((0 if probs else 1, int(i), probs))
+    reported = 0
+    for _, k, probs in sorted(bad):
+        i = str(k)
+        a, b = model.get(i, []), impl.get(i, ['<missing>'])
         if reported >= 3:
-            continue
+            break
         reported += 1
         case = cases[int(i)]
         keyed = fifo_problems(b, case) if fifo else []
-        if probs and keyed and len(keyed) == len(probs) and all(k for _, k in keyed):
+        if probs and keyed and len(keyed) == len(probs) and all(k2 for _, k2 in keyed):
             # only the ordering clause is broken, and in the way the committed known finding describes
             reported -= 1
             ctx.violation(texts[i] + '# impl : %s\n' % ' | '.join(b), '%s: %s' % (what, '; '.join(probs)), key=keyed[0][1])
